@@ -28,7 +28,9 @@ class Oracle(BaseOracle):
             self.stat("cursors_forwarded_ok", n_ok)
             self.stat("cursors_invalidated", n_inv)
             for kind, detail in found[:3]:
-                self.violation({"oracle": "forward", "kind": kind, "op": ev["op"], "level": level,
+                ck = "block" if "block" in detail else ("gap" if "gap" in detail else "stmt")
+                self.violation({"oracle": "forward", "kind": kind, "op": ev["op"], "level": level, "cursor_kind": ck,
+                                "exc": str(detail.get("exc", "-")).split(":")[0],
                                 "seed": self.st.seed.name, "depth": len(self.st.hist) + 1,
                                 "args": json.dumps(ev.get("a", []), sort_keys=True)[:200]},
                                {"event": ev, "detail": detail, "level": level, "src_index": len(chain) - 1 - k,
